@@ -53,6 +53,12 @@ def run_case(case):
         T = None
         rej = str(e)
     out = []
+    import re as _re
+    if T is None and _re.search(r'recursive|cycl|circular', rej, _re.I):
+        # second clause of the property: every generated document is acyclic by construction
+        # (a creation order exists for its declarations), so a rejection "for a cycle" is wrong
+        out.append(('rejected-as-cyclic', f'a document without cyclic declarations is rejected: {rej}\n{canon_text}',
+                    canon_text))
     for v in case['variants']:
         text = G.render(v['schema'], v['layout'])
         try:
